@@ -131,17 +131,18 @@ def _real_keyed(c, a, p):
     rt = c.rt
     i, v = rt.argmax(a[0], key=key)
     j, w = rt.argmin(a[0], key=key)
-    return [rt.max(a[0], key=key), rt.min(a[0], key=key), i, v, j, w, rt.sorted(a[0], key=key)]
+    lo, hi = rt.min_max(a[0], key=key)
+    return [rt.max(a[0], key=key), rt.min(a[0], key=key), i, v, j, w, rt.sorted(a[0], key=key), lo, hi]
 
 
 def _ref_keyed(t, a, p):
     x = a[0]
     key = lambda v: -v      # noqa: E731
     mx, mn = max(x, key=key), min(x, key=key)
-    return [mx, mn, x.index(mx), mx, x.index(mn), mn, sorted(x, key=key)]
+    return [mx, mn, x.index(mx), mx, x.index(mn), mn, sorted(x, key=key), mn, mx]
 
 
-_op('keyed', _real_keyed, _ref_keyed)      # max/min/argmax/argmin/sorted with key=neg (an order unlike the natural one)
+_op('keyed', _real_keyed, _ref_keyed)      # max/min/argmax/argmin/sorted/min_max with key=neg (an order unlike the natural one)
 _op('if_else', lambda c, a, p: [a[0].if_else(a[1], a[2])], lambda t, a, p: [a[1] if a[0] else a[2]])
 _op('if_else_rt', lambda c, a, p: [c.rt.if_else(a[0], a[1], a[2])],
     lambda t, a, p: [a[1] if a[0] else a[2]])
